@@ -206,7 +206,16 @@ func (s *Server) refreshConfigurationAt(ctx context.Context, seq uint64) {
 	s.setSettings(settings)
 }
 
-func (s *Server) DidChangeConfiguration(_ context.Context, _ *protocol.DidChangeConfigurationParams) error {
+func (s *Server) DidChangeConfiguration(_ context.Context, params *protocol.DidChangeConfigurationParams) error {
+	if !s.supportsConfiguration {
+		// a client that cannot be asked sends its settings along
+		if params != nil && params.Settings != nil {
+			s.cfgApplyMu.Lock()
+			s.setSettings(parseSettingsFromRaw(s.getSettings(), params.Settings))
+			s.cfgApplyMu.Unlock()
+		}
+		return nil
+	}
 	go s.refreshConfigurationAt(context.Background(), s.cfgRequested.Add(1))
 	return nil
 }
